@@ -148,9 +148,9 @@ Proof.
       { inversion E; subst; clear E. split; auto.
         clear I C A. open_state s. unfold advance_w, contiguous_writable, poke in *; cbn [cap wp rp tp buf] in *.
         subst w.
-        destruct H as (Hc & Hl & Hw & Ht & [A | [E | B]]).
+        destruct H as (Hc & Hl & Hw & Ht & [A | [E0 | B]]).
         - lia.
-        - destruct E as (-> & _ & ->). rewrite leb_t in L' by lia. cbn [Z.eqb negb] in L'.
+        - destruct E0 as (-> & _ & ->). rewrite leb_t in L' by lia. cbn [Z.eqb negb] in L'.
           zb. reflexivity.
         - rewrite leb_f in L' by lia. zb. reflexivity. }
       destruct Q as [-> ->]. auto.
@@ -163,9 +163,9 @@ Proof.
     pose proof (jump_spec s data H J1 J2) as (I & A). cbv zeta in *.
     assert (W : 0 < wp s).
     { clear I A. open_state s. unfold jump_writable in J1; cbn [cap wp rp tp buf] in *.
-      destruct H as (Hc & Hl & Hw & Ht & [A | [E | B]]).
+      destruct H as (Hc & Hl & Hw & Ht & [A0 | [E0 | B]]).
       - lia.
-      - destruct E as (-> & -> & ->). cbn in J1. lia.
+      - destruct E0 as (-> & -> & ->). cbn in J1. lia.
       - rewrite leb_f in J1 by lia. lia. }
     cbn [Z.eqb] in E. rewrite (proj1 (poke_fields s 0 data)) in E.
     replace (wp (poke s 0 data)) with (wp s) in E by reflexivity.
@@ -196,7 +196,7 @@ Proof.
       assert (J1 : 1 <= jump_writable s) by lia.
       pose proof (jump_spec s data H J1 J) as (I & A). cbv zeta in *.
       eexists; split; [reflexivity|]. auto.
-    + rewrite (leb_f _ _ L), (leb_f _ _ J). reflexivity.
+    + reflexivity.
 Qed.
 
 Lemma writer_move_fail s n : 0 <= n ->
@@ -236,14 +236,14 @@ Proof.
   - inversion E; subst; clear E.
     pose proof (rd1_spec s k H (conj Hk L)) as (I & C & A & P). cbv zeta in *.
     pose proof (contiguous_le_readable s H). rewrite (readable_abs s H) in *.
-    spl; auto; try lia; try discriminate.
+    spl; auto; try lia; try discriminate. intros _. split; [lia | auto].
   - inversion E; subst; clear E. spl; auto; try lia; try discriminate.
 Qed.
 
 Lemma clear_spec s : inv s -> inv (clear s) /\ cap (clear s) = cap s /\ abs (clear s) = [].
 Proof.
-  intros H. open_state s. unfold clear, abs; cbn [cap wp rp tp buf]. spl; try lia.
-  destruct H as (? & ? & ? & ? & ?). right; left; auto.
+  intros H. open_state s. unfold clear, abs; cbn [cap wp rp tp buf].
+  destruct H as (? & ? & ? & ? & ?). spl; try lia; reflexivity.
 Qed.
 
 (* ------------------------------------------------------------------ *)
@@ -317,13 +317,13 @@ Proof.
   destruct o; cbn [step st wptr wf_op] in *.
   - (* write *)
     destruct (write s src) as [[s1 ok] a1] eqn:EW. inversion E; subst; clear E.
-    pose proof (write_spec _ _ _ _ _ H EW) as (I & C & Q & A & F & R). cbn [st wptr].
+    pose proof (write_spec _ _ _ _ _ H EW) as (I & C & Q & A & F & R). unfold sinv; cbn [st wptr].
     spl; auto.
     + destruct ok; cbn [fifo_step]; auto. rewrite F; auto.
     + destruct ok; cbn [refused]; auto; discriminate.
   - (* read *)
     destruct (read s n) as [[s1 o1] a1] eqn:ER. inversion E; subst; clear E.
-    pose proof (read_spec _ _ _ _ _ H W ER) as (I & C & Q & A & F & R). cbn [st wptr].
+    pose proof (read_spec _ _ _ _ _ H W ER) as (I & C & Q & A & F & R). unfold sinv; cbn [st wptr].
     rewrite (readable_abs s H) in Q.
     spl; auto.
     + destruct o1 as [bs|]; cbn [fifo_step].
@@ -334,7 +334,7 @@ Proof.
     + destruct o1; cbn [refused]; auto; discriminate.
   - (* fetch *)
     destruct (fetch s n) as [o1 a1] eqn:EF. inversion E; subst; clear E.
-    pose proof (fetch_spec _ _ _ _ H W EF) as (Q & A & R). cbn [st wptr].
+    pose proof (fetch_spec _ _ _ _ H W EF) as (Q & A & R). unfold sinv; cbn [st wptr].
     rewrite (readable_abs s H) in Q.
     spl; auto.
     destruct o1 as [bs|]; cbn [fifo_step].
@@ -343,7 +343,7 @@ Proof.
     + split; [apply Q; auto | auto].
   - (* writer_fc *)
     pose proof (writer_fc_spec s n H W) as Q.
-    destruct (writer_fc s n) as [off|] eqn:EF; inversion E; subst; clear E; cbn [st wptr fifo_step].
+    destruct (writer_fc s n) as [off|] eqn:EF; inversion E; subst; clear E; unfold sinv; cbn [st wptr fifo_step].
     + spl; auto. apply acc1; lia.
     + spl; auto.
   - (* writer_move_n through the pending pointer *)
@@ -352,33 +352,33 @@ Proof.
       destruct (Z.leb_spec (len data) n) as [K | K].
       * destruct (writer_move_n (poke s off data) off (len data)) as [s2 ok] eqn:EM.
         inversion E; subst; clear E.
-        pose proof (wmn_spec _ _ _ _ _ _ H P1 K EM) as (-> & I & C & A). cbn [st wptr fifo_step refused].
+        pose proof (wmn_spec _ _ _ _ _ _ H P1 K EM) as (-> & I & C & A). unfold sinv; cbn [st wptr fifo_step refused].
         pose proof (writer_fc_spec s n H P2) as Q. rewrite P1 in Q.
         pose proof (len_nonneg data).
         spl; auto; try discriminate. apply acc1; lia.
-      * inversion E; subst; clear E. cbn [st wptr fifo_step]. spl; auto.
-    + inversion E; subst; clear E. cbn [st wptr fifo_step]. spl; auto.
+      * inversion E; subst; clear E. unfold sinv; cbn [st wptr fifo_step]. spl; auto.
+    + inversion E; subst; clear E. unfold sinv; cbn [st wptr fifo_step]. spl; auto.
   - (* deprecated writer_move, paired *)
     pose proof (wmove_spec s data H) as Q.
     pose proof (writer_fc_spec s (len data) H (len_nonneg data)) as Q2.
     destruct (writer_fc s (len data)) as [off|] eqn:EF.
     + destruct Q as (s2 & EM & I & C & A). rewrite EM in E. inversion E; subst; clear E.
-      cbn [st wptr fifo_step refused]. spl; auto; try discriminate.
+      unfold sinv; cbn [st wptr fifo_step refused]. spl; auto; try discriminate.
       apply acc1; try lia. apply len_nonneg.
-    + rewrite Q in E. inversion E; subst; clear E. cbn [st wptr fifo_step]. spl; auto.
+    + rewrite Q in E. inversion E; subst; clear E. unfold sinv; cbn [st wptr fifo_step]. spl; auto.
   - (* reader_fc *)
     pose proof (reader_fc_spec s n H W) as Q.
-    destruct (reader_fc s n) as [off|] eqn:EF; inversion E; subst; clear E; cbn [st wptr fifo_step].
+    destruct (reader_fc s n) as [off|] eqn:EF; inversion E; subst; clear E; unfold sinv; cbn [st wptr fifo_step].
     + destruct Q as (Q1 & Q2 & Q3 & Q4 & Q5). spl; auto. apply acc1; lia.
     + spl; auto.
   - (* reader_move *)
     destruct (reader_move s k) as [s1 ok] eqn:EM. inversion E; subst; clear E.
-    pose proof (reader_move_spec _ _ _ _ H W EM) as (I & C & Q & A & F). cbn [st wptr].
+    pose proof (reader_move_spec _ _ _ _ H W EM) as (I & C & Q & A & F). unfold sinv; cbn [st wptr].
     spl; auto.
     + destruct ok; cbn [fifo_step]; auto. rewrite F; auto.
     + destruct ok; cbn [refused]; auto; discriminate.
   - (* clear *)
-    inversion E; subst; clear E. pose proof (clear_spec s H) as (I & C & A). cbn [st wptr fifo_step].
+    inversion E; subst; clear E. pose proof (clear_spec s H) as (I & C & A). unfold sinv; cbn [st wptr fifo_step].
     spl; auto. discriminate.
 Qed.
 
@@ -480,43 +480,100 @@ Lemma fail_iff_lack s : inv s ->
   (forall k, 0 <= k -> snd (reader_move s k) = false -> fst (reader_move s k) = s).
 Proof.
   intros H. spl.
-  - destruct (write s src) as [[s1 ok] a] eqn:E; cbn [fst snd].
-    pose proof (write_spec _ _ _ _ _ H E) as (_ & _ & Q & _). destruct ok; intros; try discriminate.
+  - intros src. destruct (write s src) as [[s1 ok] a] eqn:E; cbn [fst snd].
+    pose proof (write_spec _ _ _ _ _ H E) as (_ & _ & Q & _). destruct ok; split; intros; try discriminate; auto.
     + assert (len src <= writable s) by (apply Q; auto). lia.
     + assert (~ len src <= writable s) by (intros Hc; apply Q in Hc; discriminate). lia.
-  - destruct (write s src) as [[s1 ok] a] eqn:E; cbn [fst snd].
-    pose proof (write_spec _ _ _ _ _ H E) as (_ & _ & Q & _). destruct ok; intros; auto.
-    assert (false = true) by (apply Q; lia). discriminate.
-  - destruct (write s src) as [[s1 ok] a] eqn:E; cbn [fst snd].
+  - intros src. destruct (write s src) as [[s1 ok] a] eqn:E; cbn [fst snd].
     pose proof (write_spec _ _ _ _ _ H E) as (_ & _ & _ & _ & F & _). auto.
-  - destruct (read s n) as [[s1 r] a] eqn:E; cbn [fst snd].
-    pose proof (read_spec _ _ _ _ _ H H0 E) as (_ & _ & Q & _). apply Q.
-  - destruct (read s n) as [[s1 r] a] eqn:E; cbn [fst snd].
-    pose proof (read_spec _ _ _ _ _ H H0 E) as (_ & _ & Q & _). apply Q.
-  - destruct (read s n) as [[s1 r] a] eqn:E; cbn [fst snd].
-    pose proof (read_spec _ _ _ _ _ H H0 E) as (_ & _ & _ & _ & F & _). auto.
-  - destruct (fetch s n) as [r a] eqn:E; cbn [fst snd].
-    pose proof (fetch_spec _ _ _ _ H H0 E) as (Q & _). apply Q.
-  - destruct (fetch s n) as [r a] eqn:E; cbn [fst snd].
-    pose proof (fetch_spec _ _ _ _ H H0 E) as (Q & _). apply Q.
-  - pose proof (writer_fc_spec s n H H0) as Q. rewrite H1 in Q. lia.
-  - pose proof (writer_fc_spec s n H H0) as Q. rewrite H1 in Q. lia.
-  - intros [A B]. pose proof (writer_fc_spec s n H H0) as Q.
-    destruct (writer_fc s n); auto. lia.
+  - intros n Hn. destruct (read s n) as [[s1 r] a] eqn:E; cbn [fst snd].
+    pose proof (read_spec _ _ _ _ _ H Hn E) as (_ & _ & Q & _). apply Q.
+  - intros n Hn. destruct (read s n) as [[s1 r] a] eqn:E; cbn [fst snd].
+    pose proof (read_spec _ _ _ _ _ H Hn E) as (_ & _ & _ & _ & F & _). auto.
+  - intros n Hn. destruct (fetch s n) as [r a] eqn:E; cbn [fst snd].
+    pose proof (fetch_spec _ _ _ _ H Hn E) as (Q & _). apply Q.
+  - intros n Hn. pose proof (writer_fc_spec s n H Hn) as Q.
+    destruct (writer_fc s n); split; intros; auto; try discriminate; lia.
   - intros n off data F K.
     destruct (writer_move_n (poke s off data) off (len data)) as [s2 ok] eqn:E; cbn [snd].
     apply (wmn_spec _ _ _ _ _ _ H F K E).
-  - apply (writer_move_fail s n H0).
-  - apply (writer_move_fail s n H0).
-  - apply (writer_move_fail s n H0).
-  - pose proof (reader_fc_spec s n H H0) as Q. intros E. rewrite E in Q. auto.
-  - pose proof (reader_fc_spec s n H H0) as Q. intros E. destruct (reader_fc s n); auto. lia.
-  - destruct (reader_move s k) as [s1 ok] eqn:E; cbn [fst snd].
-    pose proof (reader_move_spec _ _ _ _ H H0 E) as (_ & _ & Q & _). destruct ok; intros; try discriminate.
-    assert (~ k <= contiguous_readable s) by (intros Hc; apply Q in Hc; discriminate). lia.
-  - destruct (reader_move s k) as [s1 ok] eqn:E; cbn [fst snd].
-    pose proof (reader_move_spec _ _ _ _ H H0 E) as (_ & _ & Q & _). destruct ok; intros; auto.
-    assert (false = true) by (apply Q; lia). discriminate.
-  - destruct (reader_move s k) as [s1 ok] eqn:E; cbn [fst snd].
-    pose proof (reader_move_spec _ _ _ _ H H0 E) as (_ & _ & _ & _ & F). auto.
+  - intros n Hn. apply (writer_move_fail s n Hn).
+  - intros n Hn. apply (writer_move_fail s n Hn).
+  - intros n Hn. pose proof (reader_fc_spec s n H Hn) as Q.
+    destruct (reader_fc s n); split; intros; auto; try discriminate; lia.
+  - intros k Hk. destruct (reader_move s k) as [s1 ok] eqn:E; cbn [fst snd].
+    pose proof (reader_move_spec _ _ _ _ H Hk E) as (_ & _ & Q & _). destruct ok; split; intros; try discriminate; auto.
+    + assert (k <= contiguous_readable s) by (apply Q; auto). lia.
+    + assert (~ k <= contiguous_readable s) by (intros Hc; apply Q in Hc; discriminate). lia.
+  - intros k Hk. destruct (reader_move s k) as [s1 ok] eqn:E; cbn [fst snd].
+    pose proof (reader_move_spec _ _ _ _ H Hk E) as (_ & _ & _ & _ & F). auto.
+Qed.
+
+(* ------------------------------------------------------------------ *)
+(* Non-vacuity: a concrete history that goes through a truncating jump,
+   a reader wrap at the mark, the writer arriving exactly at the stale mark,
+   a split write and both zero-copy pairs satisfies every hypothesis above,
+   and the observable results are the FIFO ones. *)
+
+Definition ex_ops : list op :=
+  [OWrite [1;2;3;4]; ORead 3; OWrite [5;6]; ORmove 1; OWrite [7;8]; ORead 4; ORfc 1;
+   OWfc 3; OWmn [9;10]; OFetch 2; OWmove [11]; ORfc 3; ORmove 2; OWrite [12;13;14]; ORead 4; ORead 1].
+
+Example ex_wf : Forall wf_op ex_ops.
+Proof. repeat constructor; cbn; lia. Qed.
+
+Example ex_results :
+  map o_res (snd (run (start 5 0) ex_ops)) =
+  [RBool true; RBytes (Some [1;2;3]); RBool true; RBool true; RBool true; RBytes (Some [5;6;7;8]);
+   RPtrBytes None; RPtr (Some 0); RBool true; RBytes (Some [9;10]); RMove true (Some 2);
+   RPtrBytes (Some (0, [9;10;11])); RBool true; RBool true; RBytes (Some [11;12;13;14]); RBytes None]
+  /\ map o_rd (snd (run (start 5 0) ex_ops)) = [4;1;3;2;4;0;0;0;2;2;3;3;1;4;0;0].
+Proof. vm_compute. split; reflexivity. Qed.
+
+Example ex_inv_shapeB : inv (mkbb 5 2 3 4 [6;7;0;4;0]) /\ abs (mkbb 5 2 3 4 [6;7;0;4;0]) = [4;6;7].
+Proof. split; [unfold inv; cbn; lia | reflexivity]. Qed.
+
+(* What the two repairs are for: the same motions with the ORIGINAL tests.      *)
+(* (1) mark reset only when t < w: from the reachable state w=2 r=0 t=4 (c=5)   *)
+(* the writer lands on the stale mark, [wp < tp] is lost, and the next read of  *)
+(* all 4 unread bytes wraps r to 0 in shape A: readable() is 4 again although   *)
+(* the FIFO is empty.                                                            *)
+Definition advance_w_orig (s : bb) (n : Z) (b : list byte) : bb :=
+  let w1 := wp s + n in
+  let t1 := if tp s <? w1 then cap s else tp s in
+  let w2 := if w1 =? cap s then 0 else w1 in
+  mkbb (cap s) w2 (rp s) t1 b.
+
+Example orig_stale_mark_resurrects :
+  let s := mkbb 5 2 0 4 [6;7;3;4;0] in                   (* unread: 6 7 *)
+  inv s /\
+  let s1 := advance_w_orig s 2 (blit (buf s) 2 [8;9]) in (* accepted: 8 9 *)
+  ~ inv s1 /\
+  let '(s2, out, _) := read s1 4 in
+  out = Some [6;7;8;9] /\ readable s2 = 4 /\ drop 4 [6;7;8;9] = [].
+Proof.
+  cbn zeta. split; [unfold inv; cbn; lia|].
+  split; [intros (_ & _ & _ & T & _); vm_compute in T; destruct T as [T _]; discriminate T|].
+  vm_compute. repeat split; reflexivity.
+Qed.
+
+(* (2) reader_move without the wrap at the mark: from the reachable state        *)
+(* w=2 r=3 t=4 (c=5, unread 4 6 7) moving past the single contiguous byte       *)
+(* leaves r = t: two bytes unread, none contiguous, reader_fc refuses for ever.  *)
+Definition reader_move_orig (s : bb) (n : Z) : bb * bool :=
+  let cr := contiguous_readable s in
+  if n <=? cr then (refresh (mkbb (cap s) (wp s) (rp s + n) (tp s) (buf s)), true)
+  else (s, false).
+
+Example orig_reader_move_stuck :
+  let s := mkbb 5 2 3 4 [6;7;0;4;0] in
+  inv s /\
+  let s1 := fst (reader_move_orig s 1) in
+  readable s1 = 2 /\ contiguous_readable s1 = 0 /\ reader_fc s1 1 = None /\ ~ inv s1.
+Proof.
+  cbn zeta. split; [unfold inv; cbn; lia|].
+  repeat split; try reflexivity.
+  intros (_ & _ & _ & _ & [T | [T | T]]); vm_compute in T; destruct T as [T1 T2];
+    first [discriminate T1 | discriminate T2 | (destruct T2 as [T2 _]; discriminate T2)
+          | (exfalso; apply T1; reflexivity) | (exfalso; apply T2; reflexivity)].
 Qed.
